@@ -293,7 +293,9 @@ HStepCore(d, h, prev, step) ==
 (* a run-time expression error recorded by this call dooms the workflow as well *)
 HStep(d, h, prev, step) ==
   [HStepCore(d, h, prev, step) EXCEPT
-     !.doomed = @ \/ NewErrs(prev, step.obs, "expr") # {},
+     \* ... and so does an exception that escapes a call other than a rejected request (a run-time error)
+     !.doomed = @ \/ NewErrs(prev, step.obs, "expr") # {}
+                  \/ (step.ret # "ok" /\ ~(step.call.op \in {"req", "rerun"} /\ step.ret \in Rejections)),
      \* the workflow is (still) paused while some task execution is pending or paused
      !.pauseCause = @ \/ (step.obs.wf = "paused" /\ \E i \in 1..Len(step.obs.seq) : step.obs.seq[i].st \in DormantSt)]
 
